@@ -34,6 +34,8 @@ def _m(t, p, b):
                 return True
         return False
     if isinstance(p, tuple):
+        if isinstance(t, tuple) and len(t) == 5 and len(p) == 4 and t[0] == "call" and p[0] == "call":
+            t = t[:4]  # ignore the call-site tag of &mut-taking calls
         if not isinstance(t, tuple) or len(t) != len(p):
             return False
         if p and p[0] == "bin" and len(p) == 4 and isinstance(p[1], str) and p[1] in COMMUTATIVE and t[0] == "bin":
